@@ -768,7 +768,10 @@ def to_query(tokens):
         # A PARENTHESISED QUERY ARRIVES HERE WITH ITS OWN WITH CLAUSE ALREADY ATTACHED: DO NOT OVERWRITE IT WITH NOTHING
         for key in ("with", "with_recursive", "using"):
             value = tokens[key]
-            if value or key not in output:
+            if value and output.get(key):
+                # BOTH LEVELS HAVE ONE: THE OUTER DEFINITIONS COME FIRST
+                output[key] = listwrap(scrub(value)) + listwrap(scrub(output[key]))
+            elif value or key not in output:
                 output[key] = value
 
         return output
